@@ -11,7 +11,7 @@ EXTENDS Bytes
 FLAG == 126   \* 0x7E
 ESC  == 125   \* 0x7D
 
-Escape(p) == FlattenSeq([i \in 1..Len(p) |->
+Escape(p) == Flat([i \in 1..Len(p) |->
                  IF p[i] = FLAG THEN <<ESC, 2>> ELSE IF p[i] = ESC THEN <<ESC, 1>> ELSE <<p[i]>>])
 
 Framed(p) == <<FLAG>> \o Escape(p) \o <<FLAG>>
@@ -25,7 +25,7 @@ FramedRaw7D(p) == IF Len(p) > 0 /\ p[Len(p)] = ESC
 \* (written without recursion so that 1 KB frames need no deep stack: in a valid
 \* string every 7D is the first byte of a pair, or the raw last interior byte)
 UnescOk(f) == \A i \in 2..Len(f) - 2 : f[i] = ESC => f[i + 1] \in {1, 2}
-UnescVal(f) == FlattenSeq([i \in 1..Len(f) |->
+UnescVal(f) == Flat([i \in 1..Len(f) |->
                  IF i = 1 \/ i = Len(f) THEN <<>>
                  ELSE IF f[i] = ESC THEN (IF i = Len(f) - 1 THEN <<ESC>> ELSE <<>>)   \* raw 7D checksum
                  ELSE IF i > 2 /\ f[i - 1] = ESC THEN <<(IF f[i] = 1 THEN ESC ELSE FLAG)>>
@@ -84,7 +84,7 @@ Decode(f) ==
 (* (Escape/Payload/Framed) and compare with the input.  Shares no check     *)
 (* with Decode; TLC checks the two agree (MC_Frame: Sound).                 *)
 IsPairStart(w, i) == w[i] = ESC /\ i < Len(w) /\ w[i + 1] \in {1, 2}
-Lenient(w) == FlattenSeq([i \in 1..Len(w) |->
+Lenient(w) == Flat([i \in 1..Len(w) |->
                  IF IsPairStart(w, i) THEN <<>>
                  ELSE IF i > 1 /\ IsPairStart(w, i - 1) THEN <<(IF w[i] = 1 THEN ESC ELSE FLAG)>>
                  ELSE <<w[i]>>])
